@@ -9,12 +9,13 @@
     type's attributes (`TypeKept`) and whose member list is — in order — a fresh rebuilt copy of every source member
     (`MembersRel`: field / argument / input-field attributes as far as the constructors pass them on, all of them for the
     variant of /repo) followed by what the extension adds (`ExtIntact`): exactly the conclusion of `untouched_preserved_extend`,
-    now read in the FINAL heap and against the source as it was when the run started.
+    now read in the FINAL heap and against the source as it was when the run started; and it is still closed and well-formed
+    (`extend_closed_wf`; the documents only use defined names and define new, non-reserved, distinct type names: `ExtOK`).
   Closedness and well-formedness of the extension results, and operations applied to the RESULT of any earlier step, are
   `extend_closed_wf` (Props/C14_extend_closed.lean) and `history_closed_framed` (Props/C14_history.lean).
 -/
 import PyGqlModel.Props.C14_sequence
-import PyGqlModel.Props.C14_extend
+import PyGqlModel.Props.C14_extend_closed
 
 set_option linter.unusedSimpArgs false
 set_option linter.unusedVariables false
@@ -53,11 +54,11 @@ def ExtIntact (cfg : Cfg) (ext : Ext) (h0 : Heap) (s : Schema) (hN : Heap) (s' :
 
 def OpOK (s : Schema) : Op → Prop
   | .transform vs => ∀ v, v ∈ vs → NoWrap v
-  | .extend ext => ∀ e, e ∈ ext.newTypes → e.1 ∉ names s
+  | .extend ext => ExtOK s ext ∧ ∀ e, e ∈ ext.newTypes → isProtected e.1 = false
 
 def ResIntact (cfg : Cfg) (h0 : Heap) (s : Schema) (hN : Heap) : Res → Prop
   | .transformed vs s' => ResultIntact h0 s hN (vs, s')
-  | .extended ext s' => ExtIntact cfg ext h0 s hN s'
+  | .extended ext s' => ExtIntact cfg ext h0 s hN s' ∧ closedB hN s' = true ∧ wfB hN s' = true
 
 private theorem all2_imp_mem {α β : Type} {R S : α → β → Prop} : ∀ {l1 : List α} {l2 : List β}, All2 R l1 l2 →
     (∀ a, a ∈ l1 → ∀ b, R a b → S a b) → All2 S l1 l2 := by
@@ -113,11 +114,11 @@ theorem ResIntact.frame {cfg : Cfg} {h0 : Heap} {s : Schema} {h1 h2 : Heap} (f :
     (i : ResIntact cfg h0 s h1 r) : ResIntact cfg h0 s h2 r := by
   cases r with
   | transformed vs s' => exact ResultIntact.frame f i
-  | extended ext s' => exact ExtIntact.frame f i
+  | extended ext s' => exact ⟨ExtIntact.frame f i.1, closedB_frame f s' i.2.1, wfB_frame f s' i.2.2⟩
 
 /-- general form (the source lives in `h0`, the run starts in a later heap `h` that frames it) -/
 theorem runOps_intact (cfg : Cfg) (hd : cfg.deepClone = true) (hk : cfg.keepAllTypes = true) (hacc : cfg.accumulateBusted = true)
-    (hx : cfg.extKeepAll = true) (fuel : Nat) (s : Schema) (h0 : Heap) (hc0 : closedB h0 s = true) (hw0 : wfB h0 s = true) :
+    (hx : cfg.extKeepAll = true) (hin : cfg.extInputFieldExtended = true) (fuel : Nat) (s : Schema) (h0 : Heap) (hc0 : closedB h0 s = true) (hw0 : wfB h0 s = true) :
     ∀ (ops : List Op), (∀ o, o ∈ ops → OpOK s o) → ∀ (h hN : Heap) (rs : List Res),
       Frame h0 h → runOps cfg (2 + fuel) s ops h = some (hN, rs) →
       Frame h hN ∧ rs.length = ops.length ∧ ∀ r, r ∈ rs → ResIntact cfg h0 s hN r := by
@@ -158,7 +159,8 @@ theorem runOps_intact (cfg : Cfg) (hd : cfg.deepClone = true) (hk : cfg.keepAllT
             exact ResIntact.frame f2 (r := .transformed vs s1) (one.2.2 (vs, s1) (by simp))
           · exact i2 r hrm
     | extend ext =>
-      have hnew : ∀ e, e ∈ ext.newTypes → e.1 ∉ names s := hv (.extend ext) (by simp)
+      obtain ⟨hok, hnp⟩ : ExtOK s ext ∧ ∀ e, e ∈ ext.newTypes → isProtected e.1 = false := hv (.extend ext) (by simp)
+      have hnew : ∀ e, e ∈ ext.newTypes → e.1 ∉ names s := hok.2.2
       simp only [runOps] at e
       split at e
       · cases e
@@ -173,6 +175,7 @@ theorem runOps_intact (cfg : Cfg) (hd : cfg.deepClone = true) (hk : cfg.keepAllT
         simp only [List.mem_cons] at hrm
         rcases hrm with rfl | hrm
         · apply ResIntact.frame f2 (r := .extended ext (extend cfg ext s h).2)
+          refine ⟨?_, extend_closed_wf cfg hx hin ext s h hc hw hok hnp⟩
           intro n a t hm hp ht0
           have ha : a < h0.size := readType_lt' ht0
           have ht : h.readType a = some t := by simp only [Heap.readType, f0.2 a ha]; exact ht0
@@ -183,11 +186,11 @@ theorem runOps_intact (cfg : Cfg) (hd : cfg.deepClone = true) (hk : cfg.keepAllT
 
 /-- FULL `untouched_preserved` over a whole MIXED run of transforms and extensions of one source (see the header) -/
 theorem run_ops_untouched_preserved (cfg : Cfg) (hd : cfg.deepClone = true) (hk : cfg.keepAllTypes = true)
-    (hacc : cfg.accumulateBusted = true) (hx : cfg.extKeepAll = true) (fuel : Nat) (s : Schema) (h : Heap)
+    (hacc : cfg.accumulateBusted = true) (hx : cfg.extKeepAll = true) (hin : cfg.extInputFieldExtended = true) (fuel : Nat) (s : Schema) (h : Heap)
     (hc : closedB h s = true) (hw : wfB h s = true) (ops : List Op) (hv : ∀ o, o ∈ ops → OpOK s o) (hN : Heap) (rs : List Res)
     (e : runOps cfg (2 + fuel) s ops h = some (hN, rs)) :
     Frame h hN ∧ closedB hN s = true ∧ wfB hN s = true ∧ rs.length = ops.length ∧ ∀ r, r ∈ rs → ResIntact cfg h s hN r := by
-  obtain ⟨f, e1, i⟩ := runOps_intact cfg hd hk hacc hx fuel s h hc hw ops hv h hN rs (Frame.refl h) e
+  obtain ⟨f, e1, i⟩ := runOps_intact cfg hd hk hacc hx hin fuel s h hc hw ops hv h hN rs (Frame.refl h) e
   exact ⟨f, closedB_frame f s hc, wfB_frame f s hw, e1, i⟩
 
 /-- TOTALITY: on a closed well-formed source every mixed run succeeds -/
@@ -210,11 +213,24 @@ theorem runOps_total (cfg : Cfg) (hd : cfg.deepClone = true) (hk : cfg.keepAllTy
       obtain ⟨rr, hrr⟩ := Option.isSome_iff_exists.mp (ih _ (closedB_frame f1 s hc) (wfB_frame f1 s hw))
       simp [runOps, hrr]
 
+private theorem extOK_zed' : ExtOK s0 zed := by
+  refine ⟨⟨?_, ?_, ?_, ?_, ?_⟩, by decide, by decide⟩
+  · intro nm f hf; simp [zed, assocD] at hf
+  · intro nm g hg; simp [zed, assocD] at hg
+  · intro nm m hm; simp [zed, assocD] at hm
+  · intro e f he hf
+    simp only [zed, List.mem_singleton] at he
+    subst he
+    simp only [List.mem_singleton] at hf
+    subst hf
+    exact ⟨Or.inl (by decide), fun g hg => by cases hg⟩
+  · intro e g he hg; simp [zed] at he
+
 /-- non-vacuity on the witness: transform, extend, clone, extend again — all from the same source -/
 example : closedB h0 s0 = true ∧ wfB h0 s0 = true ∧ OpOK s0 (.transform [.vis hideDog, .camel id]) ∧ OpOK s0 (.extend zed) ∧
     ((runOps Cfg.fixed (2 + 6) s0 [.transform [.vis hideDog, .camel id], .extend zed, .transform [], .extend zed] h0).map
       fun r => r.2.length) = some 4 := by
-  refine ⟨by decide, by decide, ?_, (by simp only [OpOK]; decide), by decide⟩
+  refine ⟨by decide, by decide, ?_, ⟨extOK_zed', by decide⟩, by decide⟩
   intro v hv
   simp only [List.mem_cons, List.not_mem_nil, or_false] at hv
   rcases hv with rfl | rfl <;> trivial
